@@ -192,7 +192,7 @@ func runCheck(id, tier string) int {
 			"class": v.Class, "message": v.Msg, "replay": v.Replay}, "", " ")
 		os.WriteFile(path, jb, 0o644)
 		fmt.Printf("VIOLATION property=%s replay=%s\n", id, path)
-		fmt.Printf("  [%s] %s (%s %s)\n", v.Class, v.Msg, v.Scen, v.Params)
+		fmt.Printf("  [%s] %s (%s %s)\n", v.Class, strings.ReplaceAll(v.Msg, "\x00", "<absent>"), v.Scen, strings.ReplaceAll(strings.ReplaceAll(v.Params, "\x00", "<absent>"), "\x01", "|"))
 	}
 	// evidence
 	cov := map[string]any{
@@ -340,11 +340,19 @@ func runExplore(b *built, prop string, p part, tier string, fds []finding, known
 			return rep, nil, nil, pl.stopErr
 		}
 		if a.diverged > 0 {
-			out, _ := exec.Command("sh", "-c", "grep -h -A8 DIVERGENCE "+b.dir+"/stderr.* | head -60").CombinedOutput()
+			out, _ := exec.Command("sh", "-c", "grep -h -A8 DIVERGENCE "+b.dir+"/stderr.* | head -40").CombinedOutput()
 			fmt.Fprintf(os.Stderr, "%s\n", out)
 		}
-		if a.diverged > 0 {
+		// A replay that diverges three times in a row is not explored further. Isolated divergences come
+		// from choices inside uninstrumented libraries (Go's randomised select, map order); they are
+		// counted, reported in the evidence and make the part non-exhaustive. Many of them mean the
+		// explorer does not own the scenario's nondeterminism: that is an engine error.
+		if a.diverged > 3 && a.diverged*2000 > a.execs {
 			return rep, nil, nil, fmt.Errorf("NONDETERMINISM: %d replay divergences in %s (%s)", a.diverged, p.Scen, a.divMsg)
+		}
+		if a.diverged > 0 {
+			rep.Diverged += a.diverged
+			rep.Notes = append(rep.Notes, fmt.Sprintf("bound %d: %d of %d replays diverged from their parent three times in a row and their subtrees were not explored (last: %s)", d, a.diverged, a.execs, a.divMsg))
 		}
 		if pl.cut {
 			rep.BoundPartial = d
@@ -384,7 +392,7 @@ func runExplore(b *built, prop string, p part, tier string, fds []finding, known
 	}
 	rep.Contended = a.contended
 	rep.Outcomes = len(a.outcomes)
-	rep.Exhaustive = rep.BoundDone >= 0 && rep.BoundPartial == 0
+	rep.Exhaustive = rep.BoundDone >= 0 && rep.BoundPartial == 0 && rep.Diverged == 0
 	rep.WallS = time.Since(t0).Seconds()
 	var viols []violation
 	// confirm each distinct violation by replaying it twice in fresh workers
